@@ -1,5 +1,7 @@
 import FxVerif.Proofs.C01
 import FxVerif.Proofs.C01Gen
+import FxVerif.Proofs.C01R4
+import FxVerif.Proofs.C01Refine
 /-!
 # C01 — bridge events take effect exactly once, strictly in event-nonce order
 
@@ -508,5 +510,389 @@ example : (greach witnessParams (restartDemo.take 8)).pending = [] ∧ (greach w
 example : (gstep (greach witnessParams (restartDemo.take 8)) (.op (.claim 101 101 2 1 .other 1002))).2 = .nonContiguous := by decide
 example : (gstep (greach witnessParams (restartDemo.take 9)) (.op (.exec 1 .ok .nil))).2 = .notFound := by decide
 example : (greach witnessParams restartDemo).lastObserved = 2 ∧ (greach witnessParams restartDemo).observedLog = [(1, 0), (2, 0)] := by decide
+
+
+/-! ## round 4 — claims whose handler panics; claims inside signed transactions
+
+All six claim types are now voted and executed by the harness.  Two of the handlers that run AT OBSERVATION TIME can panic:
+`OutgoingTxBatchExecuted` (batch not in the store) and `UpdateOracleSetExecuted` (claim contradicts the stored oracle set of
+its nonce).  The panic leaves `processAttestation`'s cache context and the whole claim message: `Kind.panics`. -/
+
+/-- a claim whose handler would panic NEVER takes effect: whatever the votes and powers, it moves neither the last observed
+nonce nor the observation log nor the parked claims (either it is an ordinary vote below the bar, or the message is undone) -/
+theorem panicking_handler_never_observes (s : State) (w i n h : Nat) (ms : List Nat) (e : Nat) :
+    (step s (.claim w i n h (.panics ms) e)).1.lastObserved = s.lastObserved ∧
+    (step s (.claim w i n h (.panics ms) e)).1.observedLog = s.observedLog ∧
+    (step s (.claim w i n h (.panics ms) e)).1.pending = s.pending := by
+  simp only [step]
+  by_cases hok : (claimStep s w i n h (.panics ms)).2 = .ok
+  · obtain ⟨a, hga, hno⟩ := panics_not_ok_or_not_observing s w i n h ms hok
+    obtain ⟨a', _, hga', _, _, _, _, _, heq⟩ := claim_ok s w i n h (.panics ms) hok
+    rw [hga] at hga'; cases hga'
+    rw [heq]
+    exact attest_not_observing s a n h _ hno
+  · rw [claim_not_ok s w i n h _ hok]; exact ⟨rfl, rfl, rfl⟩
+
+/-- a claim message whose handler panicked leaves NO trace: not the vote, not the per-oracle nonce (the oracle may vote for
+this nonce again, e.g. for a competing claim), not the observation -/
+theorem panicked_claim_leaves_no_trace (s : State) (w i n h : Nat) (k : Kind) (e : Nat)
+    (hp : (step s (.claim w i n h k e)).2 = .panicked) : (step s (.claim w i n h k e)).1 = s := by
+  simp only [step] at hp ⊢
+  exact claim_not_ok s w i n h k (by rw [hp]; decide)
+
+/-- only a claim marked `panics` can end that way, and only when its vote would have made the event take effect -/
+theorem panicked_only_at_observation (s : State) (w i n h : Nat) (k : Kind) (e : Nat)
+    (hp : (step s (.claim w i n h k e)).2 = .panicked) :
+    ∃ ms a, k = .panics ms ∧ s.byBridger.get (voter w i) = some a ∧ observesNow s a n h = true := by
+  simp only [step] at hp
+  unfold claimStep at hp
+  repeat' split at hp
+  all_goals first | (simp at hp; done) | skip
+  rename_i _ _ a hga _ _ _ _ _ _ hpn
+  cases k with
+  | panics ms =>
+    refine ⟨ms, a, rfl, hga, ?_⟩
+    have hr : observeRunsHandler = true := by decide
+    simpa [handlerPanics, hr] using hpn
+  | pending => simp [handlerPanics] at hpn
+  | other => simp [handlerPanics] at hpn
+  | oracleSet ms => simp [handlerPanics] at hpn
+
+/-- a claim inside a signed transaction either never reaches the message server (and nothing happens) or is exactly the
+in-process claim: every theorem about histories of `claim` operations covers histories of claim TRANSACTIONS -/
+theorem tx_claim_is_claim_or_nothing (s : State) (w i n h : Nat) (k : Kind) :
+    txClaimStep s w i n h k = (s, .undeliverable) ∨ txClaimStep s w i n h k = claimStep s w i n h k :=
+  txClaim_cases s w i n h k
+
+theorem lastObserved_tx_step (s : State) (w i n h : Nat) (k : Kind) :
+    (txClaimStep s w i n h k).1.lastObserved = s.lastObserved ∨ (txClaimStep s w i n h k).1.lastObserved = s.lastObserved + 1 := by
+  rcases tx_claim_is_claim_or_nothing s w i n h k with e | e
+  · rw [e]; exact Or.inl rfl
+  · rw [e]; exact lastObserved_step s (.claim w i n h k 0)
+
+/-! ## round 4 — the other attestation models of this tree are projections of this one
+
+`Model/C05.doObserve` (C05 / C06) and `Model/C03Attest.voteWith` (C03) carry their own copies of "a vote makes the event take
+effect".  For the fields they share with `Model/C01` they are refinements of its `claim` step — so the three cannot drift
+apart without a proof obligation of THIS file breaking (each side is tied to the source through its own regenerated facts:
+`Gen.C05.tryAttestationOrder`, `Gen.C03.attestTrySites`, `Gen.C01.*`). -/
+
+open FxVerif.Proofs.C01Refine in
+/-- C05 / C06.  `Sim5`: same last observed nonce, every nonce parked in the C05 state is parked in the C01 state.  For every
+pair of related states and every event `ev` of the C05 model, submitted to the C01 model as a claim of the corresponding kind
+(`kindOfEv`: result claims are parked, a batch event without its batch panics, the rest runs at once), by ANY bridger, for
+ANY nonce and claim id:
+* the claim message is undone by a handler panic  ⇒  `doObserve` answers `panic` and changes nothing either;
+* the claim is accepted and makes its event take effect  ⇒  `doObserve` answers `ok n` for that very nonce `n`, which is the
+  old last observed nonce + 1 in both, the states are related again, and `n` is parked in both or in neither;
+* the claim is accepted as a mere vote  ⇒  the C05 model does not move and the states stay related. -/
+theorem c05_observation_refines_c01 (s1 : State) (s5 : FxVerif.Model.C05.State) (hS : Sim5 s1 s5)
+    (w i n h e hgt : Nat) (ev : FxVerif.Model.C05.Ev) :
+    ((step s1 (.claim w i n h (kindOfEv s5 ev) e)).2 = .panicked →
+        (step s1 (.claim w i n h (kindOfEv s5 ev) e)).1 = s1 ∧ FxVerif.Model.C05.doObserve s5 hgt ev = (s5, .panic)) ∧
+    ((step s1 (.claim w i n h (kindOfEv s5 ev) e)).2 = .ok →
+        (step s1 (.claim w i n h (kindOfEv s5 ev) e)).1.lastObserved ≠ s1.lastObserved →
+        (FxVerif.Model.C05.doObserve s5 hgt ev).2 = .ok n ∧ n = s1.lastObserved + 1 ∧
+        Sim5 (step s1 (.claim w i n h (kindOfEv s5 ev) e)).1 (FxVerif.Model.C05.doObserve s5 hgt ev).1 ∧
+        ((parks (kindOfEv s5 ev) = true ↔ n ∈ (FxVerif.Model.C05.doObserve s5 hgt ev).1.pending.map (·.1)) ∨ n ∈ s5.pending.map (·.1))) ∧
+    ((step s1 (.claim w i n h (kindOfEv s5 ev) e)).2 = .ok →
+        (step s1 (.claim w i n h (kindOfEv s5 ev) e)).1.lastObserved = s1.lastObserved →
+        Sim5 (step s1 (.claim w i n h (kindOfEv s5 ev) e)).1 s5) := by
+  refine ⟨?_, ?_, ?_⟩
+  · intro hp
+    obtain ⟨ms, _, hk, _, _⟩ := panicked_only_at_observation s1 w i n h _ e hp
+    refine ⟨panicked_claim_leaves_no_trace s1 w i n h _ e hp, ?_⟩
+    rw [doObserve_eval, (handleEvent_none_iff s5 hgt ev).mpr ⟨ms, hk⟩]
+  · intro hok hmoved
+    simp only [step] at hok hmoved ⊢
+    obtain ⟨a, _, hga, _, _, _, _, _, heq⟩ := claim_ok s1 w i n h _ hok
+    rw [heq] at hmoved ⊢
+    have hobs : observesNow s1 a n h = true := by
+      cases hx : observesNow s1 a n h
+      · exact absurd (attest_not_observing s1 a n h _ hx).1 hmoved
+      · rfl
+    have hk : ∀ ms, kindOfEv s5 ev ≠ .panics ms := by
+      intro ms hc
+      rw [hc] at hok
+      obtain ⟨a', hga', hno⟩ := panics_not_ok_or_not_observing s1 w i n h ms hok
+      rw [hga] at hga'; cases hga'
+      rw [hobs] at hno; cases hno
+    obtain ⟨hn, hlo, hpend⟩ := attest_observing s1 a n h (kindOfEv s5 ev) hobs
+    obtain ⟨hr, ho⟩ := doObserve_obs s5 hgt ev hk
+    have ho1 : (FxVerif.Model.C05.doObserve s5 hgt ev).1.eventNonce = s5.eventNonce + 1 := congrArg Prod.fst ho
+    have ho2 : (FxVerif.Model.C05.doObserve s5 hgt ev).1.pending.map (·.1) =
+        s5.pending.map (·.1) ++ (if parks (kindOfEv s5 ev) then [s5.eventNonce + 1] else []) := congrArg Prod.snd ho
+    have hen : s5.eventNonce + 1 = n := by rw [hS.1, hn]
+    refine ⟨by rw [hr, hen], hn, ⟨by rw [ho1, hlo, hen], ?_⟩, ?_⟩
+    · intro m hm
+      rw [ho2] at hm
+      rcases List.mem_append.mp hm with h1 | h1
+      · exact (hpend m).mpr (Or.inl (hS.2 m h1))
+      · cases hpk : parks (kindOfEv s5 ev)
+        · simp [hpk] at h1
+        · simp [hpk] at h1
+          exact (hpend m).mpr (Or.inr ⟨hpk, by rw [h1, hen]⟩)
+    · by_cases hin : n ∈ s5.pending.map (·.1)
+      · exact Or.inr hin
+      · left
+        rw [ho2]
+        cases hpk : parks (kindOfEv s5 ev)
+        · simp [hpk]; simpa using hin
+        · simp [hpk, hen]
+  · intro hok hsame
+    simp only [step] at hok hsame ⊢
+    obtain ⟨a, _, _, _, _, _, _, _, heq⟩ := claim_ok s1 w i n h _ hok
+    rw [heq] at hsame ⊢
+    have hno : observesNow s1 a n h = false := by
+      cases hx : observesNow s1 a n h
+      · rfl
+      · obtain ⟨hn, hlo, _⟩ := attest_observing s1 a n h (kindOfEv s5 ev) hx
+        rw [hlo, hn] at hsame; omega
+    obtain ⟨h1, _, h3⟩ := attest_not_observing s1 a n h (kindOfEv s5 ev) hno
+    exact ⟨by rw [h1]; exact hS.1, by rw [h3]; exact hS.2⟩
+
+
+open FxVerif.Proofs.C01Refine in
+/-- C05 / C06, WHOLE RUNS.  A joint history (`JOp`: claims of any bridger / nonce / claim id carrying an event of the C05 model —
+the C05 model observes the event exactly when the claim makes it take effect in this model —, registry operations of this
+model, pool / batch / bridge-call operations of the C05 model, deferred executions of parked result claims in both) from the
+initial states keeps the two models together: in EVERY state reached the C05 model's event counter IS this model's last
+observed nonce, every claim parked there is parked here, its parked nonces are distinct — and therefore the contiguity theorem
+of this property speaks about the C05 / C06 model's event order: the events it applied are 1 … eventNonce, in this order. -/
+theorem c05_runs_refine_c01_runs (p : Params) (s5 : FxVerif.Model.C05.State) (h0 : s5.eventNonce = 0) (hp : s5.pending = [])
+    (ops : List JOp) :
+    (jrun (init p, s5) ops).2.eventNonce = (jrun (init p, s5) ops).1.lastObserved ∧
+    (∀ n ∈ (jrun (init p, s5) ops).2.pending.map (·.1), n ∈ (jrun (init p, s5) ops).1.pending) ∧
+    ((jrun (init p, s5) ops).2.pending.map (·.1)).Nodup ∧
+    (jrun (init p, s5) ops).1.observedLog.map Prod.fst = List.range' 1 (jrun (init p, s5) ops).2.eventNonce := by
+  have hR : Rel5 (init p, s5).1 (init p, s5).2 :=
+    ⟨by simp [h0, init], by simp [hp], by simp [hp], by simp [hp]⟩
+  have h := rel5_run (init p, s5) ops hR
+  have hI := inv_jrun (init p, s5) ops (inv_init p)
+  exact ⟨h.lo, h.sub, h.nd, by rw [h.lo]; exact hI.logC⟩
+
+/-- how the outcomes of the two models correspond -/
+def resMatch : FxVerif.Model.C03.VoteResult → Out → Prop
+  | .ok, .ok => True
+  | .logicCheck, .invalid => True
+  | .nonContiguous, .nonContiguous => True
+  | .panic, .panicked => True
+  | _, _ => False
+
+open FxVerif.Proofs.C01Refine in
+/-- C03.  `Model/C03Attest.vote` (the call sites `TryAttestation(att, claim)` of `Keeper.Attest` regenerated into
+`Gen.C03.attestTrySites`) against `claimStep` of this model, for EVERY pair of states that agree on what one vote reads:
+the last observed nonce, the voter's effective last nonce, the result of `claimLogicCheck`, the votes and the observed flag of
+the attestation the claim is filed under, every oracle's power, the recorded total — and for every claim object, hash type,
+hash order, registered online oracle `o` and its bridger.  Then the two agree on the OUTCOME (accepted / claimLogicCheck /
+non-contiguous / handler panic), on whether the event takes effect NOW, on the new last observed nonce, on the voter's new
+effective last nonce, and on whether the event nonce is parked afterwards (when it was not before). -/
+theorem c03_vote_refines_c01_claim {η : Type} [DecidableEq η] (key : FxVerif.Model.C03.AnyClaim → η) (le : η → η → Bool)
+    (s3 : FxVerif.Model.C03.AState η) (s1 : State) (o : Nat) (c : FxVerif.Model.C03.AnyClaim) (hp : Bool)
+    (w i h : Nat) (kind : Kind) (orc : Oracle)
+    (hreg : s1.byBridger.get (voter w i) = some o) (horc : s1.oracles.get o = some orc) (hon : orc.online = true)
+    (hvb : validateBasic w i = true)
+    (hlo : s3.lastObserved = s1.lastObserved)
+    (hln : FxVerif.Model.C03.lastNonceOf s3 o = effLast s1 o)
+    (hlc : FxVerif.Model.C03.logicCheck s3 c = logicCheck s1 kind)
+    (hpw : ∀ v, s3.powers.lookup v = (s1.oracles.get v).map Oracle.power)
+    (htot : s3.total = s1.lastTotalPower)
+    (hatt : ((FxVerif.Model.C03.attFor key s3 c).votes.map (·.1), (FxVerif.Model.C03.attFor key s3 c).observed) = attView s1 c.nonce h)
+    (hkp : hp = true ↔ ∃ ms, kind = .panics ms)
+    (hkd : c.deferred = parks kind) :
+    resMatch (FxVerif.Model.C03.vote key le s3 o c hp).2 (claimStep s1 w i c.nonce h kind).2 ∧
+    observes3 key s3 o c = observesNow s1 o c.nonce h ∧
+    (FxVerif.Model.C03.vote key le s3 o c hp).1.lastObserved = (claimStep s1 w i c.nonce h kind).1.lastObserved ∧
+    ((claimStep s1 w i c.nonce h kind).2 = .ok →
+      FxVerif.Model.C03.lastNonceOf (FxVerif.Model.C03.vote key le s3 o c hp).1 o = effLast (claimStep s1 w i c.nonce h kind).1 o ∧
+      (c.nonce ∉ s3.pending.map (·.1) → c.nonce ∉ s1.pending →
+        (c.nonce ∈ (FxVerif.Model.C03.vote key le s3 o c hp).1.pending.map (·.1) ↔ c.nonce ∈ (claimStep s1 w i c.nonce h kind).1.pending))) := by
+  have hv1 : (attView s1 c.nonce h).1 = (FxVerif.Model.C03.attFor key s3 c).votes.map (·.1) := by rw [← hatt]
+  have hv2 : (attView s1 c.nonce h).2 = (FxVerif.Model.C03.attFor key s3 c).observed := by rw [← hatt]
+  obtain ⟨hvv, hvo⟩ := voteAtt_view s1 o c.nonce h
+  -- the two "takes effect now" conditions are the same Boolean
+  have hobs : observes3 key s3 o c = observesNow s1 o c.nonce h := by
+    unfold observes3 observesNow tallyCond FxVerif.Model.C03.crosses
+    have f1 : tallyCalled = true := by decide
+    have f2 : tallyRequiresNotObserved = true := by decide
+    have f3 : tallyRequiresNextNonce = true := by decide
+    rw [crossesFrom_eq_tally s3 s1.oracles s1.lastTotalPower hpw htot, hvv, hvo, hv1, hv2, hlo]
+    simp [f1, f2, f3]
+  have hco : attestChecksContiguity = true := by decide
+  have hro : claimRequiresOnline = true := by decide
+  have hrh : observeRunsHandler = true := by decide
+  -- evaluate both steps
+  suffices hmain :
+      resMatch (FxVerif.Model.C03.vote key le s3 o c hp).2 (claimStep s1 w i c.nonce h kind).2 ∧
+      (FxVerif.Model.C03.vote key le s3 o c hp).1.lastObserved = (claimStep s1 w i c.nonce h kind).1.lastObserved ∧
+      ((claimStep s1 w i c.nonce h kind).2 = .ok →
+        FxVerif.Model.C03.lastNonceOf (FxVerif.Model.C03.vote key le s3 o c hp).1 o = effLast (claimStep s1 w i c.nonce h kind).1 o ∧
+        (c.nonce ∉ s3.pending.map (·.1) → c.nonce ∉ s1.pending →
+          (c.nonce ∈ (FxVerif.Model.C03.vote key le s3 o c hp).1.pending.map (·.1) ↔ c.nonce ∈ (claimStep s1 w i c.nonce h kind).1.pending)))
+    from ⟨hmain.1, hobs, hmain.2.1, hmain.2.2⟩
+  unfold FxVerif.Model.C03.vote FxVerif.Model.C03.voteWith
+  unfold claimStep
+  simp only [hvb, hreg, horc, hon, hro, hco, Bool.not_true, Bool.false_eq_true, if_false, Bool.true_and, Bool.and_false, hlc, hln]
+  by_cases hL : logicCheck s1 kind = true
+  · simp only [hL, Bool.not_true, Bool.false_eq_true, if_false]
+    by_cases hN : c.nonce = effLast s1 o + 1
+    · have hN' : (c.nonce != effLast s1 o + 1) = false := by simp [hN]
+      simp only [hN', Bool.false_eq_true, if_false]
+      rw [hit_eval]
+      cases hO : observesNow s1 o c.nonce h
+      · -- a mere vote in both
+        have hO3 : observes3 key s3 o c = false := by rw [hobs, hO]
+        have hnp : handlerPanics s1 o c.nonce h kind = false := by
+          cases kind <;> simp [handlerPanics, hO]
+        simp only [hO3, Bool.false_eq_true, if_false, hnp]
+        obtain ⟨a1, a2, a3⟩ := attest_not_observing s1 o c.nonce h kind hO
+        refine ⟨trivial, by rw [a1]; exact hlo, fun _ => ⟨?_, fun h3 h1 => ?_⟩⟩
+        · rw [lastNonceOf_setLast, effLast_of_get (by rw [attest_lastNonce]; exact get_set_self _ _ _)]
+        · rw [a3]
+          exact ⟨fun hx => absurd hx h3, fun hx => absurd hx h1⟩
+      · have hO3 : observes3 key s3 o c = true := by rw [hobs, hO]
+        simp only [hO3, if_true]
+        cases hpb : hp
+        · -- observed in both
+          have hnk : ∀ ms, kind ≠ .panics ms := by
+            intro ms hc
+            have : hp = true := hkp.mpr ⟨ms, hc⟩
+            rw [hpb] at this; cases this
+          have hnp : handlerPanics s1 o c.nonce h kind = false := by
+            cases kind with
+            | panics ms => exact absurd rfl (hnk ms)
+            | _ => rfl
+          simp only [Bool.false_eq_true, if_false, hnp]
+          obtain ⟨b1, b2, b3⟩ := attest_observing s1 o c.nonce h kind hO
+          refine ⟨trivial, ?_, fun _ => ⟨?_, fun h3 h1 => ?_⟩⟩
+          · rw [b2]; rfl
+          · rw [lastNonceOf_setLast, effLast_of_get (by rw [attest_lastNonce]; exact get_set_self _ _ _)]
+          · rw [b3 c.nonce]
+            simp only [FxVerif.Model.C03.setLast, FxVerif.Model.C03.observe, hkd]
+            cases hpk : parks kind
+            · simp only [Bool.false_eq_true, if_false]
+              constructor
+              · intro hx; exact absurd hx h3
+              · intro hx
+                rcases hx with hx | ⟨hx, _⟩
+                · exact absurd hx h1
+                · cases hx
+            · simp [FxVerif.Model.C03.setPending]
+        · -- handler panic in both: everything undone
+          obtain ⟨ms, hk⟩ := hkp.mp hpb
+          have hnp : handlerPanics s1 o c.nonce h kind = true := by rw [hk]; simp [handlerPanics, hrh, hO]
+          simp only [if_true, hnp]
+          exact ⟨trivial, hlo, fun hx => by cases hx⟩
+    · have hN' : (c.nonce != effLast s1 o + 1) = true := by simp [hN]
+      simp only [hN', if_true]
+      exact ⟨trivial, hlo, fun hx => by cases hx⟩
+  · have hL' : logicCheck s1 kind = false := by cases hx : logicCheck s1 kind <;> simp_all
+    simp only [hL', Bool.not_false, if_true]
+    exact ⟨trivial, hlo, fun hx => by cases hx⟩
+
+open FxVerif.Proofs.C01Refine in
+/-- C03, the attestation table: under the same local correspondence, after an ACCEPTED vote the attestation the claim is filed
+under has the same votes (the new vote appended) and the same observed flag in both models — also when the vote made the event
+take effect and the C01 model pruned old attestations in the same step (the attestation of the nonce just observed is never
+pruned) -/
+theorem c03_vote_refines_c01_claim_att {η : Type} [DecidableEq η] (key : FxVerif.Model.C03.AnyClaim → η) (le : η → η → Bool)
+    (s3 : FxVerif.Model.C03.AState η) (s1 : State) (o : Nat) (c : FxVerif.Model.C03.AnyClaim) (hp : Bool)
+    (w i h : Nat) (kind : Kind) (orc : Oracle)
+    (hreg : s1.byBridger.get (voter w i) = some o) (horc : s1.oracles.get o = some orc) (hon : orc.online = true)
+    (hvb : validateBasic w i = true)
+    (hlo : s3.lastObserved = s1.lastObserved)
+    (hln : FxVerif.Model.C03.lastNonceOf s3 o = effLast s1 o)
+    (hlc : FxVerif.Model.C03.logicCheck s3 c = logicCheck s1 kind)
+    (hpw : ∀ v, s3.powers.lookup v = (s1.oracles.get v).map Oracle.power)
+    (htot : s3.total = s1.lastTotalPower)
+    (hatt : ((FxVerif.Model.C03.attFor key s3 c).votes.map (·.1), (FxVerif.Model.C03.attFor key s3 c).observed) = attView s1 c.nonce h)
+    (hkp : hp = true ↔ ∃ ms, kind = .panics ms)
+    (hkd : c.deferred = parks kind)
+    (hok : (claimStep s1 w i c.nonce h kind).2 = .ok) :
+    ∃ a3 a1, FxVerif.Model.C03.getAtt (FxVerif.Model.C03.vote key le s3 o c hp).1.atts c.nonce (key c) = some a3 ∧
+      findAtt (claimStep s1 w i c.nonce h kind).1.atts c.nonce h = some a1 ∧
+      a3.votes.map (·.1) = a1.votes ∧ a3.observed = a1.observed := by
+  obtain ⟨hres, hobs, _, _⟩ := c03_vote_refines_c01_claim key le s3 s1 o c hp w i h kind orc hreg horc hon hvb hlo hln hlc hpw htot hatt hkp hkd
+  have hok3 : (FxVerif.Model.C03.vote key le s3 o c hp).2 = .ok := by
+    rw [hok] at hres
+    cases hr : (FxVerif.Model.C03.vote key le s3 o c hp).2 <;> simp [hr, resMatch] at hres ⊢
+  obtain ⟨a3, hg3, hv3, ho3⟩ := vote_voted_att key le s3 o c hp hok3
+  obtain ⟨a', _, hga', _, _, _, _, _, heq⟩ := claim_ok s1 w i c.nonce h kind hok
+  rw [hreg] at hga'; cases hga'
+  obtain ⟨a1, hg1, hv1, ho1⟩ := attest_voted_att s1 o c.nonce h kind
+  refine ⟨a3, a1, hg3, by rw [heq]; exact hg1, ?_, ?_⟩
+  · rw [hv3, hv1, ← hatt]
+  · rw [ho3, ho1, ← hatt, hobs]
+
+/-! ### non-vacuity of the refinement statements -/
+
+section
+open FxVerif.Proofs.C01Refine
+
+/-- one oracle holding all the power (as the C05 model assumes), nothing observed yet -/
+def soleOracle : State :=
+  { oracles := [(1, ⟨101, 201, 50 * powerReduction, true, 0⟩)], byBridger := [(101, 1)], lastTotalPower := 50 }
+
+example : Sim5 soleOracle {} := ⟨rfl, by intro n hn; cases hn⟩
+/-- a result claim: observed and parked under nonce 1 in both models -/
+example : (step soleOracle (.claim 101 101 1 0 (kindOfEv {} (.result 7 true)) 0)).2 = .ok ∧
+    (step soleOracle (.claim 101 101 1 0 (kindOfEv {} (.result 7 true)) 0)).1.lastObserved = 1 ∧
+    (step soleOracle (.claim 101 101 1 0 (kindOfEv {} (.result 7 true)) 0)).1.pending = [1] := by decide
+/-- a batch event without its batch: panic in both -/
+example : (step soleOracle (.claim 101 101 1 0 (kindOfEv {} (.batch 0 9)) 0)).2 = .panicked := by decide
+
+/-- the hypotheses of `c03_vote_refines_c01_claim` are satisfiable: the C03 state that sees the same single oracle, and a
+bridge-call-result claim for nonce 1 (deferred ↔ parked) -/
+def resultClaim : FxVerif.Model.C03.AnyClaim :=
+  .bcr { ChainName := [], BridgerAddress := [], EventNonce := 1, BlockHeight := 1, Nonce := 1, TxOrigin := [], Success := true, Cause := [] }
+
+def soleOracle3 : FxVerif.Model.C03.AState Nat := { powers := [(1, 50)], total := 50 }
+
+example : soleOracle.byBridger.get (voter 101 101) = some 1 ∧ soleOracle3.lastObserved = soleOracle.lastObserved ∧
+    FxVerif.Model.C03.lastNonceOf soleOracle3 1 = effLast soleOracle 1 ∧
+    FxVerif.Model.C03.logicCheck soleOracle3 resultClaim = logicCheck soleOracle .pending ∧
+    soleOracle3.total = soleOracle.lastTotalPower ∧ resultClaim.deferred = parks .pending ∧
+    ((FxVerif.Model.C03.attFor (fun _ => 0) soleOracle3 resultClaim).votes.map (·.1),
+      (FxVerif.Model.C03.attFor (fun _ => 0) soleOracle3 resultClaim).observed) = attView soleOracle resultClaim.nonce 0 := by decide
+example : ∀ v, soleOracle3.powers.lookup v = (soleOracle.oracles.get v).map Oracle.power := by
+  intro v
+  by_cases hv : v = 1
+  · subst hv; decide
+  · have h1 : (1 == v) = false := by simp; omega
+    have h2 : (v == 1) = false := by simp [hv]
+    simp [soleOracle3, soleOracle, List.lookup, Map.get, h2, Ne.symm hv]
+example : (FxVerif.Model.C03.vote (fun _ => 0) (fun _ _ => true) soleOracle3 1 resultClaim false).2 = .ok ∧
+    (FxVerif.Model.C03.vote (fun _ => 0) (fun _ _ => true) soleOracle3 1 resultClaim false).1.lastObserved = 1 ∧
+    (claimStep soleOracle 101 101 1 0 .pending).1.lastObserved = 1 := by decide
+
+/-- a joint history: a transfer and a bridge call in the C05 model, a result claim observed and parked in both, executed in
+both (the outgoing call exists: success), a batch event without its batch (panic in both: nothing moves) -/
+def jointDemo : List JOp :=
+  [ .right (.bridgeCall 0 0 "0x0000000000000000000000000000000000000001" "ab" "" []),
+    .claim 101 101 1 0 0 1001 (.result 1 true),
+    .exec 1,
+    .claim 101 101 2 0 0 1002 (.batch 0 9),
+    .claim 101 101 2 1 0 1002 .other ]
+
+example : let r := jrun (soleOracle, { obsExt := 1000, fxHeight := 5 }) jointDemo
+    r.1.lastObserved = 2 ∧ r.2.eventNonce = 2 ∧ r.1.executedLog = [1] ∧ r.2.pending = [] ∧ r.1.pending = [] := by decide
+
+end
+
+/-! ### non-vacuity -/
+
+/-- two oracles of 50 each: the first vote for a panicking claim is an ordinary vote, the second would cross the bar and is
+undone as a whole; the competing (sound) claim is then observed with the same two voters -/
+def panicDemo : List Op :=
+  let u : Nat := powerReduction
+  [ .gov [1, 2] true, .bond 1 101 201 (50 * u) true, .bond 2 102 202 (50 * u) true,
+    .claim 101 101 1 0 (.panics []) 1001,     -- 50 < 66: vote stored
+    .claim 102 102 1 0 (.panics []) 1001,     -- would observe: handler panics, message undone
+    .claim 102 102 1 1 .other 1001 ]          -- oracle 2 is free to vote for the competing claim
+
+example : (step (reach witnessParams (panicDemo.take 4)) (.claim 102 102 1 0 (.panics []) 1001)).2 = .panicked := by decide
+example : (reach witnessParams (panicDemo.take 5)).atts.map (fun a => (a.nonce, a.hash, a.votes, a.observed)) = [(1, 0, [1], false)] := by decide
+example : (reach witnessParams panicDemo).lastObserved = 0 ∧ (reach witnessParams panicDemo).lastNonce = [(1, 1), (2, 1)] := by decide
+example : (txClaimStep (reach witnessParams (panicDemo.take 3)) 101 101 1 0 .other).2 = .undeliverable := by decide
 
 end FxVerif.Props.C01
